@@ -492,7 +492,7 @@ func init() {
 
 func runDDLIdemp(c *core.Ctx) {
 	P := c.P
-	mig := P.Sqlite.Func("Migrate")
+	mig := P.Func(P.Sqlite, "Migrate")
 	if mig == nil {
 		c.NoAnchor(nil, "sqlite.Migrate")
 		return
